@@ -59,18 +59,20 @@ type c19Case struct {
 	AutoDrain bool    `json:"autodrain"`
 	Peers     int     `json:"peers"`
 	Ops       []c19Op `json:"ops"`
+	Scoring   bool    `json:"scoring,omitempty"` // gossipsub with peer scoring and peer exchange; the accept-PX threshold lies above every score
 }
 
 func c19Gen(rt *rapid.T) c19Case {
 	c := c19Case{Router: rapid.SampledFrom([]string{"gossipsub", "gossipsub", "floodsub", "randomsub"}).Draw(rt, "router")}
 	c.AutoDrain = rapid.IntRange(0, 2).Draw(rt, "autodrain") > 0
+	c.Scoring = rapid.IntRange(0, 2).Draw(rt, "scoring") == 0
 	c.Queue = 64
 	if !c.AutoDrain {
 		c.Queue = rapid.IntRange(1, 3).Draw(rt, "queue")
 	}
 	c.Peers = rapid.IntRange(1, 6).Draw(rt, "peers")
 	n := rapid.IntRange(3, 50).Draw(rt, "nops")
-	kinds := []string{"arrive", "arrive", "arrive+sub", "arrive+sub", "depart", "sub", "unsub", "graft", "prune", "join", "join", "leave", "relay", "unrelay", "hb", "hb", "lpub", "lpub", "lpublocal", "batch", "rpub", "rpub", "rpub", "drain", "adv", "recancel"}
+	kinds := []string{"arrive", "arrive", "arrive+sub", "arrive+sub", "depart", "sub", "unsub", "graft", "prune", "join", "join", "leave", "relay", "unrelay", "hb", "hb", "lpub", "lpub", "lpublocal", "batch", "batchlocal", "prunepx", "rpub", "rpub", "rpub", "drain", "adv", "recancel"}
 	for i := 0; i < n; i++ {
 		op := c19Op{Op: rapid.SampledFrom(kinds).Draw(rt, "op"), P: rapid.IntRange(1, c.Peers).Draw(rt, "p"), T: rapid.IntRange(0, 1).Draw(rt, "t")}
 		switch op.Op {
@@ -78,7 +80,7 @@ func c19Gen(rt *rapid.T) c19Case {
 			op.N = rapid.SampledFrom([]int{2, 2, 3, 0, 5}).Draw(rt, "proto")
 		case "rpub":
 			op.K = rapid.SampledFrom([]string{"valid", "valid", "dup", "badsig", "reject", "ignore"}).Draw(rt, "kind")
-		case "batch":
+		case "batch", "batchlocal":
 			op.N = rapid.IntRange(1, 4).Draw(rt, "n")
 		case "adv":
 			op.N = rapid.SampledFrom([]int{100, 1100, 5000}).Draw(rt, "ms")
@@ -214,6 +216,12 @@ func c19RunInBubble(t *testing.T, c c19Case, res *vfResult) {
 		return ValidationAccept
 	}
 	opts := []Option{WithEventTracer(mem), WithPeerOutboundQueueSize(c.Queue), WithDefaultValidator(val, WithValidatorInline(true))}
+	if c.Scoring && c.Router == "gossipsub" {
+		opts = append(opts, WithPeerExchange(true), WithPeerScore(
+			&PeerScoreParams{AppSpecificScore: func(peer.ID) float64 { return 0 }, DecayInterval: time.Second, DecayToZero: 0.01, Topics: map[string]*TopicScoreParams{}},
+			&PeerScoreThresholds{AcceptPXThreshold: 10}))
+		res.label("scoring+px")
+	}
 	n, err := newVfNode(t, vfNodeCfg{Router: c.Router, Params: &gp, ManualHeartbeat: true, Opts: opts})
 	if err != nil {
 		res.Inconclusive = err.Error()
@@ -428,6 +436,10 @@ func c19RunInBubble(t *testing.T, c c19Case, res *vfResult) {
 			n.recv(op.P, vfGraftRPC(topic))
 		case "prune":
 			n.recv(op.P, vfPruneRPC(topic, 1, nil))
+		case "prunepx":
+			// a PRUNE that carries peer-exchange records (ignored when the pruning peer's score is below the threshold)
+			n.recv(op.P, vfPruneRPC(topic, 1, []*pb.PeerInfo{{PeerID: []byte(vfPeer(30).ID), SignedPeerRecord: c09SealRecord(vfPeer(30))}}))
+			res.label("prune-with-px")
 		case "hb":
 			if n.gs != nil {
 				n.heartbeat()
@@ -475,14 +487,18 @@ func c19RunInBubble(t *testing.T, c c19Case, res *vfResult) {
 			}
 			_ = handle(op.T).Publish(n.ctx, []byte(fmt.Sprintf("local-%d", step)), po...)
 			n.settle()
-		case "batch":
+		case "batch", "batchlocal":
 			if n.gs == nil {
 				continue
 			}
 			var b MessageBatch
 			for k := 0; k < op.N; k++ {
 				publishCalls++
-				_ = handle(op.T).AddToBatch(n.ctx, &b, []byte(fmt.Sprintf("batch-%d-%d", step, k)))
+				var po []PubOpt
+				if op.Op == "batchlocal" && k%2 == 0 {
+					po = append(po, WithLocalPublication(true))
+				}
+				_ = handle(op.T).AddToBatch(n.ctx, &b, []byte(fmt.Sprintf("batch-%d-%d", step, k)), po...)
 			}
 			if err := n.ps.PublishBatch(&b); err != nil {
 				res.violate("C19/batch-error", step, "%v", err)
